@@ -242,9 +242,10 @@ def run_history(inp, extra=None, midrun=None):
         import random as _random
         _rand_state = _random.getstate()
         _random.seed(inp.get("rand_seed", 0))
-        net = RecordingStochasticNetwork(early_departure=bool(inp.get("early_departure")))
+        net = RecordingStochasticNetwork(*inp.get("tolerances", [1e-5, 1e-7]),
+                                         early_departure=bool(inp.get("early_departure")))
     else:
-        net = RecordingNetwork()
+        net = RecordingNetwork(*inp.get("tolerances", [1e-5, 1e-7]))
     for k, (sid, st) in enumerate(zip(station_ids, inp["stations"])):
         evse = make_evse(sid, tuple(st["kind"]))
         if stochastic:
@@ -484,13 +485,18 @@ def run_history(inp, extra=None, midrun=None):
 # ------------------------------------------------------------------------------------------------
 # generator
 # ------------------------------------------------------------------------------------------------
+# the last three accept NEGATIVE pilots (bidirectional EVSE: min_rate < 0, finite levels below zero): the scheduler may
+# discharge a connected EV; the batteries only warn on negative pilots
 KINDS = [("C", 0, 32), ("C", 0, 80), ("C", 0, 40), ("D", 6, 32), ("D", 8, 64), ("F", (8, 16, 24, 32)),
-         ("F", (6, 12.5, 48))]
+         ("F", (6, 12.5, 48)), ("C", -32, 32), ("C", -16, 80), ("F", (-16, -8, 8, 16))]
 
 
 def valid_pilots(kind):
     if kind[0] == "C":
-        return [kind[2], kind[2] / 2, 6, 13.37, 1, 0.25, kind[2] - 0.5]
+        out = [kind[2], kind[2] / 2, 6, 13.37, 1, 0.25, kind[2] - 0.5]
+        if kind[1] < 0:
+            out += [kind[1], kind[1] / 2, -6, -0.25, -13.37, -1]
+        return out
     if kind[0] == "D":
         return [kind[1], kind[2], (kind[1] + kind[2]) / 2, kind[1] + 0.125]
     return list(kind[1])
@@ -594,6 +600,12 @@ def gen_history(rng, tier, force=None):
         if rng.random() < 0.05:
             ent = {}
         script.append(ent)
+    if rng.random() < 0.15:
+        # very light load: a top-up residual of 6e-8 A (and 1e-3 A) on the continuous-range stations
+        for ent in script:
+            for k in ent:
+                if stations[int(k)]["kind"][0] == "C" and rng.random() < 0.5:
+                    ent[k] = [rng.choice([6e-8, 6e-8, 1e-3]) if v else v for v in ent[k]]
     bad = None
     if (force == "invalid") or (force is None and not stoch and rng.random() < 0.05 and last > 0):
         t = rng.randint(0, last)
@@ -633,6 +645,9 @@ def gen_history(rng, tier, force=None):
         out.update(interrupts=interrupts)
     if stoch:
         out.update(net_class="stochastic", rand_seed=rng.randint(0, 10**6), early_departure=rng.random() < 0.65)
+    if rng.random() < 0.3:
+        # non-default network tolerances (violation_tolerance, relative_tolerance), coarse ones included
+        out["tolerances"] = [rng.choice([1.0, 0.5, 1e-3, 0.0]), rng.choice([1e-7, 1e-2, 0.0])]
     if force in (None, "stochastic", "json-final", "json-midrun") and bad is None:
         # ---- cross-cutting families, each on a fraction of the histories
         if rng.random() < 0.35:
@@ -719,8 +734,27 @@ def case_coq(inp, impl):
         q(impl["total"]), coq_list([q(x) for x in impl["agg_current"]]), coq_list([q(x) for x in impl["agg_power"]]))
 
 
+def tiny_pilot_on_continuous(ops):
+    """the continuous two-stage law computes `pilot_transition_soc - 1` by cancellation; for a non-zero pilot below
+    1e-3 A the float result of that difference has a relative error up to ~1e-3, which the exponential turns into a
+    rate error far above 1e-9: such a call is float-ambiguous (exact arithmetic and IEEE doubles legitimately differ)"""
+    at = {}
+    for o in ops:
+        if o[0] == "plugin":
+            at[o[1]] = o[3]["kind"]
+        elif o[0] == "unplug":
+            at.pop(o[1], None)
+        else:
+            for k, p in enumerate(o[1]):
+                if at.get(k) == "cont" and 0 < abs(p) < 1e-3:
+                    return True
+    return False
+
+
 def make_case(inp):
     impl = run_history(inp)
+    if tiny_pilot_on_continuous(impl["ops"]):
+        impl["ambiguous"] = True
     delivered = any(s["energy"] != 0 for s in impl["sessions"])
     nb = sum(1 for s in inp["sessions"] if s["battery"]["kind"] != "ideal")
     kind = "%s/%s/%s%s" % ("ok" if impl["ok"] else "abort:" + str(impl["error"]),
